@@ -259,8 +259,22 @@ def run_case(case, acc, bound, count=True, machine_obj=None):
         acc.add("executions_" + case.get("_fam", "x"))
         try:
             try:
-                routes = ner.route(vr, nets, machine, cons, pl, al,
-                                   radius=case["radius"])
+                if case["radius"] == 0:
+                    # the caller's own core resource; what a vertex holds
+                    # under the built-in Cores name is a decoy
+                    from rig.place_and_route import Cores as _C
+                    vr = {v: {("app_cores" if k is _C else k): n
+                              for k, n in d.items()} for v, d in vr.items()}
+                    al = {v: dict([(("app_cores" if k is _C else k), sl)
+                                   for k, sl in d.items()] +
+                                  ([(_C, slice(15, 17))] if d else []))
+                          for v, d in al.items()}
+                    routes = ner.route(vr, nets, machine, cons, pl, al,
+                                       core_resource="app_cores",
+                                       radius=0)
+                else:
+                    routes = ner.route(vr, nets, machine, cons, pl, al,
+                                       radius=case["radius"])
             finally:
                 geometry.random, rutils.random = saved
         except MachineHasDisconnectedSubregion as e:
